@@ -38,6 +38,14 @@ FIXED = [
   "chords v2: releases arriving while chords are ignored (chords-v2-min-idle window after a non-chord resolution) bypassed drain_releases, so an active chord was never released: its key stayed down and kanata never became idle"),
  ("F7", "C01", "fix: a macro evicted from the 4-slot ring of running macros releases the keys it holds",
   "a fifth concurrent macro evicted the oldest from the 4-slot ring and the keys that macro had pressed were never released (RShift / LCtrl stuck down)"),
+ ("F16", "C07", "fix: kanata is not idle while the rapid-event-delay input pause is still counting down",
+  "the rapid-event-delay input pause was not part of is_idle: the loop blocked with pause ticks outstanding and the next key event was delayed by up to rapid-event-delay ms (`d:a t:600 u:a` on a chord key: release 5 ms late)"),
+ ("F33", "C07", "fix: kanata is not idle while the next tick still has key output to send",
+  "after a macro-release-cancel the keys the macro had pressed are released only by the following tick, but is_idle was already true: the loop blocked and the key (e.g. LGui) stayed down until the next key event"),
+ ("F34", "C07", "fix: an active one-shot is never an idle state",
+  "with rapid-event-delay 0 the key following a one-shot sets its remaining time to 0; is_idle treated timeout==0 as idle, the loop blocked and the one-shot modifier stayed down until the next key event"),
+ ("F17", "C07", "fix: kanata keeps ticking while a dynamic macro is being recorded",
+  "while a dynamic macro was being recorded the loop blocked between key events and the blocked time was not counted into the recorded delays, so the replay was paced differently"),
 ]
 log = subprocess.check_output(["git", "-C", "/repo", "log", "--format=%h %s"]).decode().splitlines()
 out = []
